@@ -47,7 +47,7 @@ class Ctx:
                 bi, hi = READS[cn]
                 args = c['args']
                 bufcall = [x for x in walk(args[bi]) if x['k'] == 'call' and q.callee_name(x) == 'boost::asio::buffer']
-                hnd = [x['e']['usr'] for x in walk(args[hi]) if x['k'] == 'un' and x['op'] == '&' and is_node(x['e']) and x['e'].get('dk') == 'func']
+                hnd = q.completion_targets(fn, args[hi])       # &C::f bound with std::bind, or a lambda that only calls f
                 if not bufcall or not hnd:
                     continue
                 hb.setdefault(hnd[0], []).append((fn, bufcall[0]))
@@ -143,9 +143,43 @@ def check(run):
         p = q.completion_count_param(fn)
         if p is not None and b is not None and b != INF:
             piv[p['name']] = (0, b)
+        piv.update(params_from_callers(fn))
         ai = intervals.AI(fx, fn, piv, cx.arrays, dict(summaries))
         cx.ai[k] = ai
         return ai
+
+    def params_from_callers(fn):
+        """Intervals of the integer parameters of a non-public helper: the join over all its call sites (all inside the
+        class, since it is not public) of the interval of the argument, evaluated in the caller's abstract state."""
+        if fn.d.get('access') not in ('private', 'protected') or fn.kind == 'lambda':
+            return {}
+        sites = [(g, c) for g in cx.fns for c in g.calls() if c.get('usr') == fn.usr and g.usr != fn.usr]
+        if not sites or fn.key() in cx.busy:
+            return {}
+        cx.busy.add(fn.key())
+        out = {}
+        try:
+            for idx, prm in enumerate(fn.params):
+                tr = intervals.type_range(fn.ty(prm['t']))
+                if tr is None or not prm.get('name'):
+                    continue
+                lo = hi = None
+                for g, c in sites:
+                    if g.key() in cx.busy or idx >= len(c.get('args', [])):
+                        lo = hi = None
+                        break
+                    ai = cx.get(g)
+                    st = ai.state_at(c)
+                    if st is None:
+                        continue            # unreachable call site
+                    _, iv = ai.ev(c['args'][idx], st.copy())
+                    lo = iv[0] if lo is None else min(lo, iv[0])
+                    hi = iv[1] if hi is None else max(hi, iv[1])
+                if lo is not None:
+                    out[prm['name']] = (max(lo, tr[0]), min(hi, tr[1]))
+        finally:
+            cx.busy.discard(fn.key())
+        return out
     cx.get = get2
 
     run.clause('R11 every subscript, buffer/string length, unsigned subtraction and pointer advance stays inside its extent for every admitted value of the untrusted bytes')
